@@ -10,6 +10,7 @@ package amf0
 import (
 	"fmt"
 	"testing"
+	"time"
 )
 
 const vC06StrictKey = "strict-array-keyed-layout"
@@ -17,6 +18,17 @@ const vC06StrictKey = "strict-array-keyed-layout"
 var vC06Supported = map[byte]bool{0: true, 1: true, 2: true, 3: true, 5: true, 6: true, 8: true, 10: true}
 
 type vC06Fail struct{ oracle, key, detail string }
+
+type vC06Result struct {
+	obs        vSx
+	fl         *vC06Fail
+	nontrivial bool
+	counts     [][2]string
+}
+
+func (r *vC06Result) count(h, b string) { r.counts = append(r.counts, [2]string{h, b}) }
+
+const vC06CaseTimeout = 30 * time.Second
 
 func vC06RunTree(n *vC05Node) (obs vSx, fl *vC06Fail) {
 	var lb []byte
@@ -95,10 +107,9 @@ func TestVerifC06(t *testing.T) {
 	k := vNewKit(t, "C06")
 	defer k.close()
 	nKnown := 0
-	runCase := func(c vSx) {
+	runCase := func(c vSx) (res vC06Result) {
 		if !c.isList() || len(c.l) != 2 || !c.l[0].isInt() {
-			k.record(c, vL(vZ(-1)), false)
-			return
+			return vC06Result{obs: vL(vZ(-1))}
 		}
 		var obs vSx
 		var fl *vC06Fail
@@ -107,38 +118,63 @@ func TestVerifC06(t *testing.T) {
 		case 0:
 			n, ok := vC05FromSx(c.l[1])
 			if !ok {
-				k.record(c, vL(vZ(-1)), false)
-				return
+				return vC06Result{obs: vL(vZ(-1))}
 			}
 			obs, fl = vC06RunTree(n)
 			nontrivial = vC05Depth(n) >= 2 || vC05HasDupOrEmptyKey(n)
-			k.count("kind", "tree")
-			k.count("tree-depth", fmt.Sprint(vC05Depth(n)))
+			res.count("kind", "tree")
+			res.count("tree-depth", fmt.Sprint(vC05Depth(n)))
 			if vC05HasStrictElems(n) {
-				k.count("tree-strict", "has-strict-elements")
+				res.count("tree-strict", "has-strict-elements")
 			} else {
-				k.count("tree-strict", "none")
+				res.count("tree-strict", "none")
 			}
 		case 1:
 			if !c.l[1].isBytes() {
-				k.record(c, vL(vZ(-1)), false)
-				return
+				return vC06Result{obs: vL(vZ(-1))}
 			}
 			var tree *vC05Node
 			obs, fl, tree = vC06RunBytes(c.l[1].b)
-			k.count("kind", "bytes")
+			res.count("kind", "bytes")
 			if tree != nil {
 				nontrivial = vC05Depth(tree) >= 2 || vC05HasDupOrEmptyKey(tree)
-				k.count("bytes-result", "lib-ok")
+				res.count("bytes-result", "lib-ok")
 			} else {
-				k.count("bytes-result", "lib-err")
+				res.count("bytes-result", "lib-err")
 			}
 		default:
-			k.record(c, vL(vZ(-1)), false)
+			return vC06Result{obs: vL(vZ(-1))}
+		}
+		res.obs, res.fl, res.nontrivial = obs, fl, nontrivial
+		return res
+	}
+	// Nothing the library does may crash or stall the driver: the case runs in its own goroutine;
+	// a panic or a hang (watchdog) is an oracle failure on that case.  All recording happens here.
+	stalled := false
+	runOne := func(c vSx) {
+		if stalled {
 			return
 		}
-		idx := k.record(c, obs, nontrivial)
-		if fl != nil {
+		ch := make(chan vC06Result, 1)
+		go func() {
+			var res vC06Result
+			if msg := vPanicText(func() { res = runCase(c) }); msg != "" {
+				res = vC06Result{obs: vPanicObs(), fl: &vC06Fail{"no-panic", "", "panic while running the case: " + msg}}
+			}
+			ch <- res
+		}()
+		var res vC06Result
+		select {
+		case res = <-ch:
+		case <-time.After(vC06CaseTimeout):
+			stalled = true
+			res = vC06Result{obs: vL(vZ(3)), fl: &vC06Fail{"no-hang", "", fmt.Sprintf("the case did not return within %v", vC06CaseTimeout)}}
+		}
+		for _, kv := range res.counts {
+			k.count(kv[0], kv[1])
+		}
+		idx := k.record(c, res.obs, res.nontrivial)
+		if fl := res.fl; fl != nil {
 			if fl.key != "" {
 				// the kit keeps at most 5000 failures: never let reproductions of the recorded
 				// finding crowd out an unlisted failure
@@ -150,19 +186,6 @@ func TestVerifC06(t *testing.T) {
 			}
 			k.fail(idx, c.size(), fl.oracle, fl.key, fl.detail)
 		}
-	}
-	// nothing the library does may crash the driver
-	runOne := func(c vSx) {
-		before := k.n
-		msg := vPanicText(func() { runCase(c) })
-		if msg == "" {
-			return
-		}
-		idx := before
-		if k.n == before {
-			idx = k.record(c, vPanicObs(), false)
-		}
-		k.fail(idx, c.size(), "no-panic", "", "panic while running the case: "+msg)
 	}
 	if k.replay != nil {
 		runOne(*k.replay)
